@@ -68,6 +68,12 @@ type caseID struct {
 	// Rev: the rooms of a persisted session are handed to PersistSession in descending instead of ascending
 	// order (the server builds that slice from a set: the order is arbitrary)
 	Rev bool
+	// Lag: the connection ends this long after the last packet before the cut (0 = 100 ms): a dead peer is
+	// noticed late (ping timeout). Behind: the client had not processed the last Behind logged packets that were
+	// sent to it when the connection ended (stalled poll, loss in flight): it presents an earlier offset, and
+	// those packets are missed packets like the ones emitted during the outage. (Scripted server scenarios only.)
+	Lag    time.Duration
+	Behind int
 }
 
 func (c caseID) spacing() time.Duration {
@@ -77,10 +83,20 @@ func (c caseID) spacing() time.Duration {
 	return c.Spacing
 }
 
+func (c caseID) lag() time.Duration {
+	if c.Lag == 0 {
+		return 100 * time.Millisecond
+	}
+	return c.Lag
+}
+
 func (c caseID) String() string {
 	o := ""
 	if c.Rev {
 		o = ", session rooms persisted in descending order"
+	}
+	if c.Lag != 0 || c.Behind != 0 {
+		o += fmt.Sprintf(", connection ends %v after the last packet, client presents the offset of %d logged packets earlier", c.lag(), c.Behind)
 	}
 	return fmt.Sprintf("history %s (packets %v apart), disconnect after packet %d, reconnect %v later%s", c.H, c.spacing(), c.K, c.Delta, o)
 }
@@ -164,7 +180,7 @@ func sleepUntil(e *vsched.Exec, t time.Duration) {
 
 func runAdapterCase(c caseID) (res caseResult) {
 	n := len(c.H)
-	tm := schedule(n, c.K, c.Delta, c.spacing())
+	tm := schedule(n, c.K, c.Delta, c.spacing(), c.lag())
 	if tm.onCleanerGrid() {
 		res.HarnessErr = fmt.Sprintf("%v: an event falls on a clean-up pass", c)
 		return
